@@ -369,6 +369,31 @@ def callbackPutSteps : List Gen.BeaconNode.Step := [
   .branch "b.Round!=0" [.call "c.RLock()", .call "defer c.RUnlock()", .loop "range c.callbacks" [.bind "j,ok:=c.newJob[id]", .guard "!ok" [.exit "continue"], .call "j<-cbPair{cb:cb,b:b}"]] [],
   .exit "return nil"]
 
+/-! ### memdb start-up: `storeCurrentFromPeerNetwork` -/
+
+/-- what goes into the still empty in-memory store, given the beacon the peers answered with: round 0 is replaced by the
+genesis beacon of the group file, anything else is stored only if it verifies -/
+def bootstrapPut (c : Crypto) (chained : Bool) (key : Nat) (seed : Bytes) (answer : Beacon) : Option Beacon :=
+  if answer.round = 0 then some (genesis seed)
+  else if !verifyBeacon c chained key answer then none
+  else some answer
+
+def bootstrapSteps : List Gen.BeaconNode.Step := [
+  .bind "clkNow:=bp.opts.clock.Now().Unix()",
+  .guard "bp.group==nil" [.exit "return nil"],
+  .bind "targetRound:=common.CurrentRound(clkNow,bp.group.Period,bp.group.GenesisTime)",
+  .guard "targetRound<2" [.exit "return nil"],
+  .bind "peers:=bp.computePeers(bp.group.Nodes)",
+  .bind "targetBeacon,err:=bp.loadBeaconFromPeers(ctx,targetRound,peers)",
+  .branch "errors.Is(err,errNoRoundInPeers)" [.branch "targetRound>1" [.bind "targetBeacon,err=bp.loadBeaconFromPeers(ctx,0,peers)"] []] [],
+  .guard "err!=nil" [.exit "return err"],
+  .guard "targetBeacon.Round==0" [.bind "err=store.Put(ctx,chain.GenesisBeacon(bp.group.GenesisSeed))", .exit "return err"],
+  .bind "err=bp.group.Scheme.VerifyBeacon(&targetBeacon,bp.group.PublicKey.Key())",
+  .guard "err!=nil" [.exit "return err"],
+  .bind "err=store.Put(ctx,&targetBeacon)",
+  .branch "err!=nil" [] [],
+  .exit "return err"]
+
 /-! ### read side -/
 
 inductive PubRes where
